@@ -178,7 +178,8 @@ class Gen:
         if r < 0.72:
             return [('(',)] + self.expr(depth - 1) + [(')',)]
         if r < 0.88:
-            return [('func', rng.choice(('f', 'gg', 'select')))] + self.arglist(depth - 1) + [(')',)]
+            # (names spelled like word operators are still function names when a parenthesis follows at once)
+            return [('func', rng.choice(('f', 'gg', 'select', 'mod', 'in', 'and', 'or', 'not', 'xor', 'contains')))] + self.arglist(depth - 1) + [(')',)]
         if r < 0.95 and self.tc.table.index_power is not None:
             return [('[',)] + self.arglist(depth - 1, allow_named=False, allow_skip=False) + [(']',)]
         if '{}' in [r_[0] for r_ in self.tc.records if r_]:
